@@ -131,7 +131,7 @@ def bgd_random(rng, n):
 # ------------------------------------------------------------------ generic random shaders
 SCALARS = ["f32", "i32", "u32"]
 CTXS = ["plain", "if_accept", "if_reject", "if_else_if", "switch_case", "switch_default", "switch_multi", "loop_body",
-        "loop_continuing", "for_body", "while_body"]
+        "loop_continuing", "for_body", "while_body", "switch_after_default", "if_both"]
 FORMATS_F = ["rgba8unorm", "rgba8snorm", "rgba16float", "r32float", "rg32float", "rgba32float"]
 FORMATS_U = ["rgba8uint", "rgba16uint", "r32uint", "rg32uint", "rgba32uint"]
 FORMATS_I = ["rgba8sint", "rgba16sint", "r32sint", "rg32sint", "rgba32sint"]
@@ -380,6 +380,10 @@ def rand_shader(rng, n_fn=(0, 4), n_entry=(1, 3), n_res=(1, 6), depth=2, push=0.
             if rng.random() < 0.45:
                 body.append(wrap(rng, {"k": "call", "f": "h%d" % j, "expr": rng.random() < 0.5}, rng.randint(0, depth)))
         rng.shuffle(body)
+        if len(body) >= 2 and rng.random() < 0.3:
+            # two neighbouring statements become the two arms of one `if`
+            k_ = rng.randrange(len(body) - 1)
+            body[k_:k_ + 2] = [{"k": "block", "ctx": "if_split", "items": body[k_:k_ + 2]}]
         return body
     for i in range(nf):
         S["functions"][i]["body"] = rand_body(i + 1, False)
